@@ -229,7 +229,9 @@ func run(raw json.RawMessage) (common.Case, error) {
 	sameCache := (in.A.Kind == "matcher") == (in.B.Kind == "matcher")
 	c.Nontrivial = distinct && sameCache && in.A.Kind == in.B.Kind
 	if distinct && sameCache && k1 == k2 {
-		c.GoPred = fmt.Sprintf("two different %s/%s items share the key %q", in.A.Kind, in.B.Kind, k1)
+		ja, _ := json.Marshal(in.A)
+		jb, _ := json.Marshal(in.B)
+		c.GoPred = fmt.Sprintf("two different %s/%s items share the key %q: %s and %s", in.A.Kind, in.B.Kind, k1, ja, jb)
 		c.Sig = "collision-" + in.A.Kind + "-" + in.B.Kind
 		if in.A.Kind == "postings" && in.B.Kind == "postings" && in.A.Block == in.B.Block && in.A.Comp == in.B.Comp &&
 			in.A.Name+":"+in.A.Value == in.B.Name+":"+in.B.Value && (strings.Contains(in.A.Name, ":") || strings.Contains(in.B.Name, ":")) {
@@ -241,7 +243,7 @@ func run(raw json.RawMessage) (common.Case, error) {
 
 // ---- generators --------------------------------------------------------------
 
-var alphabet = []string{"a", "b", "c", "x", "_", "0", "7", ":", ";", "=", "~", "!", "\"", "\\", ".", "*", "|", "é", "日", " ", "A", "-"}
+var alphabet = []string{"a", "b", "c", "x", "_", "0", "7", ":", ";", "=", "~", "!", ",", "\"", "\\", ".", "*", "|", "é", "日", " ", "A", "-"}
 
 func word(r *rand.Rand, maxLen int, legacy bool) string {
 	n := r.Intn(maxLen + 1)
@@ -295,6 +297,9 @@ func genItem(r *rand.Rand, kind string) item {
 		return item{Kind: kind, Block: uint64(1 + r.Intn(3)), Name: genName(r), Value: word(r, 5, false), Comp: comp}
 	case "expanded":
 		n := r.Intn(4)
+		if r.Intn(2) == 0 {
+			n = 2 + r.Intn(2)
+		}
 		it := item{Kind: kind, Block: uint64(1 + r.Intn(3)), Comp: comp}
 		for i := 0; i < n; i++ {
 			it.Ms = append(it.Ms, genMatcher(r, false))
@@ -355,20 +360,61 @@ func variant(r *rand.Rand, it item) item {
 		}
 	case "expanded":
 		v.Ms = append([]matcher(nil), it.Ms...)
-		switch k := r.Intn(6); {
-		case k == 0 && len(v.Ms) >= 2: // merge two matchers' text into one value
+		// The second item is derived from the first by re-cutting a plausible (weaker) serialisation of it
+		// at another name / type / value / list boundary: a key builder that drops a quote or a
+		// separator makes exactly such a pair collide.
+		switch k := r.Intn(12); {
+		case k == 0 && len(v.Ms) >= 2: // two matchers folded into one VALUE (values written unquoted)
 			a, b := v.Ms[0], v.Ms[1]
 			v.Ms = append([]matcher{{T: a.T, N: a.N, V: a.V + "\";" + b.N + b.T + "\"" + b.V}}, v.Ms[2:]...)
-		case k == 1 && len(v.Ms) >= 1:
+		case k == 1 && len(v.Ms) >= 2: // two matchers folded into one NAME (names written unquoted): a="b";c="d" as name `a="b";c`
+			a, b := v.Ms[0], v.Ms[1]
+			v.Ms = append([]matcher{{T: b.T, N: a.N + a.T + strconv.Quote(a.V) + ";" + b.N, V: b.V}}, v.Ms[2:]...)
+		case k == 2 && len(v.Ms) >= 2: // every matcher folded into the name of the last one
+			last := v.Ms[len(v.Ms)-1]
+			name := ""
+			for _, m := range v.Ms[:len(v.Ms)-1] {
+				name += m.N + m.T + strconv.Quote(m.V) + ";"
+			}
+			v.Ms = []matcher{{T: last.T, N: name + last.N, V: last.V}}
+		case k == 3 && len(v.Ms) >= 2: // folded into the name without the ';' (separator dropped)
+			a, b := v.Ms[0], v.Ms[1]
+			v.Ms = append([]matcher{{T: b.T, N: a.N + a.T + strconv.Quote(a.V) + b.N, V: b.V}}, v.Ms[2:]...)
+		case k == 4 && len(v.Ms) >= 2: // nothing quoted at all
+			a, b := v.Ms[0], v.Ms[1]
+			v.Ms = append([]matcher{{T: a.T, N: a.N, V: a.V + ";" + b.N + b.T + b.V}}, v.Ms[2:]...)
+		case k == 5 && len(v.Ms) >= 1: // name / type boundary: a!="v" is name `a!` with = or name `a` with !=
+			m := &v.Ms[r.Intn(len(v.Ms))]
+			switch {
+			case m.T == "!=":
+				m.N, m.T = m.N+"!", "="
+			case m.T == "!~":
+				m.N, m.T = m.N+"!", "=~" // a!~ vs a!=~ : differ, a near miss
+			case strings.HasSuffix(m.N, "!") && len(m.N) > 1 && m.T == "=":
+				m.N, m.T = m.N[:len(m.N)-1], "!="
+			default:
+				m.N = m.N + "!"
+			}
+		case k == 6 && len(v.Ms) >= 1: // type / value boundary: ="~x" vs =~"x"
+			m := &v.Ms[r.Intn(len(v.Ms))]
+			switch {
+			case m.T == "=~":
+				m.T, m.V = "=", "~"+m.V
+			case m.T == "=" && strings.HasPrefix(m.V, "~"):
+				m.T, m.V = "=~", m.V[1:]
+			default:
+				m.V = "~" + m.V
+			}
+		case k == 7 && len(v.Ms) >= 1:
 			v.Ms[0].N, v.Ms[0].V = shift(r, v.Ms[0].N, v.Ms[0].V, v.Ms[0].T)
 			if v.Ms[0].N == "" {
 				v.Ms[0].N = "n"
 			}
-		case k == 2 && len(v.Ms) >= 1:
+		case k == 8 && len(v.Ms) >= 1:
 			v.Ms[0].T = common.Pick(r, "=", "!=")
-		case k == 3 && len(v.Ms) >= 2:
+		case k == 9 && len(v.Ms) >= 2:
 			v.Ms[0], v.Ms[1] = v.Ms[1], v.Ms[0]
-		case k == 4:
+		case k == 10:
 			v.Ms = append(v.Ms, genMatcher(r, false))
 		default:
 			v.Comp = common.Pick(r, "", "dss")
